@@ -50,6 +50,8 @@ struct Orc {
     committed: u64, applied: u64, persisted: u64, limit: u64,
     // what the application has made durable
     d_base_i: u64, d_base_t: Option<u64>, d_ents: Vec<E3>,
+    // (index, term) of the last snapshot given to storage: storage keeps answering its term after compactions
+    d_snap: (u64, u64),
     // first index that is not stable yet; pending snapshot; restart window
     offset: u64, pending: Option<(u64, u64)>, restart_window: bool,
 }
@@ -59,7 +61,7 @@ impl Orc {
         let (bi, bt) = if h.si == 0 { (0, Some(0)) } else { (h.si, Some(h.st)) };
         let d_ents: Vec<E3> = h.tds.iter().enumerate().map(|(k, (t, d))| (h.si + 1 + k as u64, *t, *d)).collect();
         let mut o = Orc { base_i: 0, base_t: None, ents: vec![], committed: 0, applied: 0, persisted: 0, limit: h.limit,
-            d_base_i: bi, d_base_t: bt, d_ents, offset: 0, pending: None, restart_window: false };
+            d_base_i: bi, d_base_t: bt, d_ents, d_snap: (bi, bt.unwrap_or(0)), offset: 0, pending: None, restart_window: false };
         o.fresh();
         o
     }
@@ -69,6 +71,11 @@ impl Orc {
         self.committed = self.d_base_i; self.applied = self.d_base_i;
         self.persisted = self.d_last(); self.offset = self.d_last() + 1;
         self.pending = None; self.restart_window = false;
+    }
+    fn summary(&self) -> String {
+        format!("log base=({},{:?}) last={} committed={} applied={} persisted={} limit={} offset={} pending={:?} window={}; storage base=({},{:?}) last={}",
+            self.base_i, self.base_t, self.last(), self.committed, self.applied, self.persisted, self.limit, self.offset, self.pending, self.restart_window,
+            self.d_base_i, self.d_base_t, self.d_last())
     }
     fn last(&self) -> u64 { self.base_i + self.ents.len() as u64 }
     fn first(&self) -> u64 { self.base_i + 1 }
@@ -87,7 +94,7 @@ impl Orc {
         if i > self.d_base_i && i <= self.d_last() { Some(self.d_ents[(i - self.d_base_i - 1) as usize]) } else { None }
     }
     fn d_term(&self, i: u64) -> Option<u64> {
-        if i == self.d_base_i { self.d_base_t } else { self.d_ent(i).map(|e| e.1) }
+        if i == self.d_snap.0 { Some(self.d_snap.1) } else if i == self.d_base_i { self.d_base_t } else { self.d_ent(i).map(|e| e.1) }
     }
     fn has_unstable(&self) -> bool { self.offset <= self.last() }
     fn range(&self, lo: u64, hi: u64) -> Vec<E3> {
@@ -202,6 +209,8 @@ impl Orc {
             Restore(i, t) => {
                 if *i < self.committed { return Panic("restore below committed", 1421); }
                 if *i == u64::MAX { return Out("restore at u64::MAX"); }
+                // only reachable in the restart window after a compaction above the commit index
+                if *i < self.base_i { return Out("restore of a snapshot older than the compacted log base"); }
                 // a snapshot at the commit index must agree with the committed entry (raft safety);
                 // restoring a contradicting one is a protocol violation of the caller
                 if *i == self.committed { if let Ok(x) = self.term(*i) { if *i >= self.base_i && *i <= last && x != *t { return Out("restore of a snapshot contradicting the committed entry"); } } }
@@ -239,18 +248,21 @@ impl Orc {
             }
             SApplyUnstableSnap => {
                 let (pi, pt) = match self.pending { None => return Exact(vec![0]), Some(p) => p };
-                if pi < self.d_base_i + 1 { return Out("applying a snapshot storage calls out of date"); }
-                self.d_base_i = pi; self.d_base_t = Some(pt); self.d_ents.clear();
+                if pi < self.d_base_i + 1 { return Exact(vec![1, 3]); } // storage refuses: SnapshotOutOfDate, nothing changes
+                self.d_base_i = pi; self.d_base_t = Some(pt); self.d_ents.clear(); self.d_snap = (pi, pt);
                 Exact(vec![0])
             }
             SCompact(i) => {
-                if self.pending.is_some() || *i > self.applied || *i > self.d_last() || self.offset <= *i { return Out("compaction above applied / of unstable or absent entries / with a pending snapshot"); }
-                if self.base_i != self.d_base_i { return Out("compaction while log and storage bases differ"); }
-                if *i > self.d_base_i + 1 {
-                    let n = (*i - 1 - self.d_base_i) as usize;
-                    self.d_ents.drain(..n); self.d_base_i = *i - 1; self.d_base_t = None;
-                    self.ents.drain(..n); self.base_i = *i - 1; self.base_t = None;
-                }
+                // documented no-op of the storage ("don't need to treat this case as an error")
+                if *i <= self.d_base_i + 1 { return Exact(vec![]); }
+                if *i > self.applied { return Out("compaction above applied"); }
+                if *i > self.d_last() { return Out("compaction of entries storage does not hold"); }
+                if self.offset <= *i { return Out("compaction of an index that is not stable yet"); }
+                if self.pending.is_none() && self.base_i != self.d_base_i { return Out("compaction while log and storage bases differ"); }
+                let n = (*i - 1 - self.d_base_i) as usize;
+                self.d_ents.drain(..n); self.d_base_i = *i - 1; self.d_base_t = None;
+                // with a pending snapshot the log starts at the snapshot and does not look at storage
+                if self.pending.is_none() { self.ents.drain(..n); self.base_i = *i - 1; self.base_t = None; }
                 Exact(vec![])
             }
             SCommitTo(i) => if self.d_ent(*i).is_some() { Exact(vec![]) } else { Out("store.commit_to without the entry") },
@@ -409,7 +421,8 @@ fn monitor_case(h: &Hdr, ops: &[Op], fault: Fault, st: &mut Stats) -> Option<(us
     let mut o = Orc::new(h);
     if let Err(m) = check_state(&o, &l) { return Some((0, format!("initial state: {}", m))); }
     for (k, op) in ops.iter().enumerate() {
-        let fail = |m: String| Some((k, format!("op {} {:?}: {}", k, op, m)));
+        let pre = o.summary();
+        let fail = |m: String| Some((k, format!("op {} {:?}: {} [model before the op: {}]", k, op, m, pre)));
         // I3: the entries at or below the commit index before the operation
         let before: Option<(u64, Vec<E3>)> = if op.is_query() || *op == Restart { None } else {
             let n = (o.committed.min(o.last()).saturating_sub(o.base_i)) as usize;
